@@ -600,3 +600,127 @@ def r12e(R):
     R.check(lr, 'refresh() inside try in the refresh loop',
             bool(ref) and all(any(lab == 'exc' for _m, lab in n.succs) for n in ref),
             'an exception from refresh() ends the background refresh thread')
+
+
+LANAPI = 'bardolph.controller.lifx_lan_api'
+
+
+@rule('R12.g', ('C12', 'C01', 'C07'), 'every device request of the wrapper '
+      'classes reaches the library object', floor=10,
+      decides='the commands a script issues reach the devices: no wrapper '
+              'method sanitises its arguments and then sends nothing')
+def r12g(R):
+    A = R.A
+
+    def lib_calls(f, cfg, attrs):
+        return [n for n in cfg.nodes for c in n.calls()
+                if isinstance(c.func, ast.Attribute)
+                and self_attr(c.func.value) in attrs]
+
+    def logs(cfg):
+        return [n for n in cfg.nodes for c in n.calls()
+                if norm(c.func) in ('logging.error', 'logging.warning')]
+    n_methods = 0
+    for modname, attrs in ((LANLIGHT, ('_impl',)), (LANAPI, ('_lifxlan',))):
+        mod = A.repo.module(modname)
+        for cls in mod.classes.values():
+            for name, m in sorted(cls.methods.items()):
+                is_req = tries_info(A, m) is not None or (
+                    modname == LANAPI and name.startswith(('set_', 'get_')))
+                if not is_req:
+                    continue
+                n_methods += 1
+                cfg = A.cfg(m)
+                sends = lib_calls(m, cfg, attrs)
+                p = cfg.find_path([cfg.entry], lambda n: n is cfg.exit,
+                                  avoid=sends + logs(cfg)) if sends else []
+                R.check(m, '%s.%s -> self.%s.<request>' % (cls.name, name, attrs[0]),
+                        bool(sends) and p is None,
+                        '%s.%s can return without a request to the library '
+                        'object (and without logging why): the command never '
+                        'reaches the device' % (cls.name, name),
+                        path=path_text(p) if p else None)
+    if n_methods < 10:
+        raise AnalysisError('R12.g: only %d device request methods found' % n_methods)
+    # the kind of light object follows the product's features
+    bl = A.func(LANAPI, 'LifxLanApi._build_light')
+    cfg = A.cfg(bl)
+    for kind, feature in (('MultizoneLight', 'multizone'), ('MatrixLight', 'matrix')):
+        made = [n for n in cfg.nodes for c in n.calls()
+                if norm(c.func).split('.')[-1] == kind]
+        ok = bool(made)
+        for n in made:
+            facts = A.path_facts(bl, n)
+            if not any(truth and ("'%s'" % feature) in text and '.get(' in text
+                       for text, truth in facts):
+                ok = False
+        R.check(bl, '%s built iff the product has the %s feature' % (kind, feature),
+                ok, 'a %s object is not built exactly for products with the '
+                '"%s" feature: zone / matrix commands for such a light are '
+                'refused or sent to a light that cannot take them'
+                % (kind, feature))
+
+
+@rule('R15.h', ('C15', 'C12'), 'the tile message covers the whole matrix of '
+      'the one tile; the size is asked of the device when it is not given',
+      floor=6,
+      decides='a matrix set transmits the whole matrix exactly once, to the '
+              'cells it is meant for')
+def r15h(R):
+    A = R.A
+    ml = A.cls(LANLIGHT, 'MatrixLight')
+    want = {'tile_index': 0, 'length': 1, 'x': 0, 'y': 0}
+    for mname in ('set_matrix', 'get_matrix'):
+        m = ml.methods[mname]
+        payload = None
+        for n in walk_own(m.node):
+            if isinstance(n, ast.Dict) and len(n.keys) >= 5:
+                payload = n
+        if payload is None:
+            raise AnalysisError('MatrixLight.%s: payload not found' % mname)
+        got = {}
+        for k, v in zip(payload.keys, payload.values):
+            got[A.try_fold(k, m)] = v
+        for key, val in sorted(want.items()):
+            R.check(m, '%s payload[%r] = %s' % (mname, key, norm(got[key]) if key in got else None),
+                    key in got and A.try_fold(got[key], m, 'x') == val,
+                    'the tile message must address tile 0, one tile, origin '
+                    '(0, 0): %r is %s' % (key, norm(got[key]) if key in got else 'missing'))
+        R.check(m, '%s payload width/height = own size' % mname,
+                self_attr(got.get('width')) == '_width'
+                and self_attr(got.get('height')) == '_height',
+                'the tile message does not carry the light\'s own width and '
+                'height')
+        if mname == 'set_matrix':
+            c = got.get('colors')
+            R.check(m, 'payload colors = matrix.get_colors()',
+                    isinstance(c, ast.Call) and isinstance(c.func, ast.Attribute)
+                    and c.func.attr == 'get_colors'
+                    and norm(c.func.value) == m.params[1],
+                    'the cells transmitted are not the (sanitised) cells of '
+                    'the matrix handed in')
+    # size discovery
+    init = ml.methods['__init__']
+    cfg = A.cfg(init)
+    asks = A.calls_nodes(init, 'MatrixLight._get_size')
+    ok = bool(asks)
+    if ok:
+        # asked whenever one of the two is missing: no path on which a None
+        # test succeeded reaches the exit without asking
+        tests = [t for t in cfg.nodes if t.kind == 'cond'
+                 and A.canonical_atom(t.ast)[0] in (
+                     'self._width is None', 'self._height is None')]
+        ok = len(tests) >= 2
+        for t in tests:
+            _text, pol = A.canonical_atom(t.ast)
+            starts = [x for x, lab in t.succs if lab is pol]
+            if cfg.find_path(starts, lambda n: n is cfg.exit, avoid=asks) is not None:
+                ok = False
+    R.check(init, 'size asked of the device when height or width is not given',
+            ok, 'a matrix light built without an explicit size does not ask '
+            'the device for it: rows and columns are laid out wrongly')
+    gs = ml.methods['_get_size']
+    stored = set(self_attr(t) for n in walk_own(gs.node) if isinstance(n, ast.Assign)
+                 for t in n.targets if self_attr(t))
+    R.check(gs, '_get_size stores width and height', {'_width', '_height'} <= stored,
+            '_get_size does not store both dimensions reported by the device')
